@@ -8,6 +8,7 @@ import (
 	"os"
 	"os/exec"
 	"path/filepath"
+	"runtime/debug"
 	"strings"
 	"sync"
 	"syscall"
@@ -546,46 +547,80 @@ func (d *faultDP) done(i int, applied bool) {
 	d.n.mu.Unlock()
 }
 
-func (d *faultDP) WriteAt(p []byte, off int64) (int, error) {
+// dpPanics collects panics of the replica's data path: in the product the
+// replica process would be gone; here the case ends with that as its finding.
+var (
+	dpPanicMu sync.Mutex
+	dpPanics  []string
+)
+
+func takeDPPanic() string {
+	dpPanicMu.Lock()
+	defer dpPanicMu.Unlock()
+	if len(dpPanics) == 0 {
+		return ""
+	}
+	m := dpPanics[0]
+	dpPanics = nil
+	return m
+}
+
+// died turns a panic below a data-path call into "the replica process died":
+// recorded for the executor, the connection is torn down, the call fails.
+func (d *faultDP) died(kind string, err *error) {
+	if r := recover(); r != nil {
+		dpPanicMu.Lock()
+		dpPanics = append(dpPanics, fmt.Sprintf("%s on %s panicked: %v\n%s", kind, d.n.Name, r, headStr(string(debug.Stack()), 3000)))
+		dpPanicMu.Unlock()
+		d.conn.Close()
+		*err = fmt.Errorf("replica %s died in %s: %v", d.n.Name, kind, r)
+	}
+}
+
+func (d *faultDP) WriteAt(p []byte, off int64) (c int, err error) {
+	defer d.died("write", &err)
 	o := d.n.take("write")
 	i := d.begin(DPCall{Kind: "write", Off: off, Len: int64(len(p)), Sum: sum64(p), Outcome: o})
 	if err := d.fault("write", o); err != nil {
 		return 0, err
 	}
-	c, err := d.n.S.WriteAt(p, off)
+	c, err = d.n.S.WriteAt(p, off)
 	d.done(i, err == nil)
 	return c, err
 }
 
-func (d *faultDP) ReadAt(p []byte, off int64) (int, error) {
+func (d *faultDP) ReadAt(p []byte, off int64) (c int, err error) {
+	defer d.died("read", &err)
 	o := d.n.take("read")
 	i := d.begin(DPCall{Kind: "read", Off: off, Len: int64(len(p)), Outcome: o})
 	if err := d.fault("read", o); err != nil {
 		return 0, err
 	}
-	c, err := d.n.S.ReadAt(p, off)
+	c, err = d.n.S.ReadAt(p, off)
 	d.done(i, err == nil)
 	return c, err
 }
 
-func (d *faultDP) Sync() (int, error) {
+func (d *faultDP) Sync() (c int, err error) {
+	defer d.died("sync", &err)
 	o := d.n.take("sync")
 	i := d.begin(DPCall{Kind: "sync", Outcome: o})
 	if err := d.fault("sync", o); err != nil {
 		return -1, err
 	}
-	c, err := d.n.S.Sync()
+	c, err = d.n.S.Sync()
 	d.done(i, err == nil)
 	return c, err
 }
 
-func (d *faultDP) Unmap(off, length int64) (int, error) {
+func (d *faultDP) Unmap(off, length int64) (c int, err error) {
+	defer d.died("unmap", &err)
 	o := d.n.take("unmap")
 	i := d.begin(DPCall{Kind: "unmap", Off: off, Len: length, Outcome: o})
 	if err := d.fault("unmap", o); err != nil {
 		return -1, err
 	}
-	c, err := d.n.S.Unmap(off, length)
+	c, err = d.n.S.Unmap(off, length)
 	d.done(i, err == nil)
 	return c, err
 }
